@@ -8,10 +8,10 @@ Trace == ndJsonDeserialize(IOEnv.TRACE_FILE)
 R == 100
 VARIABLES i, rxq, n, plan, wrote, conf, confPrev, verdict
 tv == <<i, rxq, n, plan, wrote, conf, confPrev, verdict>>
-NoPlan == [kind |-> "noport", d1 |-> 0, d2 |-> 0, fault |-> "none"]
+NoPlan == [kind |-> "noport", d1 |-> 0, d2 |-> 0, fault |-> "none", blank |-> FALSE]
 Tok(t) == IF Len(t) = 1 THEN <<t[1]>> ELSE <<t[1], t[2]>>
 
-PlanOf(e) == [kind |-> e.kind, d1 |-> e.d1, d2 |-> e.d2, fault |-> e.fault]
+PlanOf(e) == [kind |-> e.kind, d1 |-> e.d1, d2 |-> e.d2, fault |-> e.fault, blank |-> e.blank]
 KindConsistent(e) ==      \* the harness' command catalogue agrees with the documented table
   \/ e.kind \in {"noport", "notext"}
   \/ e.fn = "command" /\ e.kind = "cmd"
@@ -24,7 +24,7 @@ JudgeRet(e) ==
   ELSE IF wrote # (IF real THEN 1 ELSE 0) THEN "WriteOnce"
   ELSE IF ~real /\ e.cls # "none" THEN "NoOp"
   ELSE IF isq /\ e.cls # "str" THEN "QueryReturnsText"
-  ELSE IF isq /\ conf /\ Tok(e.tok) # <<"data", n>> THEN "ReturnsOwnLine"
+  ELSE IF isq /\ conf /\ Tok(e.tok) # DataTok(n, plan.blank) THEN "ReturnsOwnLine"
   ELSE IF conf /\ rxq # <<>> THEN "Aligned"
   ELSE IF isq /\ plan.fault \in {"silent", "wraise", "r1raise"} /\ rxq = <<>> /\ confPrev /\ Tok(e.tok) # Empty THEN "EmptyWhenSilent"
   ELSE "ok"
@@ -38,7 +38,7 @@ Step(e) ==
          /\ confPrev' = (IF e.first THEN TRUE ELSE conf)
          /\ verdict' = IF KindConsistent(e) THEN "ok" ELSE "desync.kind"
     [] e.ev = "w" ->
-         /\ rxq' = rxq \o Enq(plan.kind, n, plan.d1, plan.d2, plan.fault)
+         /\ rxq' = rxq \o Enq(plan.kind, n, plan.d1, plan.d2, plan.fault, plan.blank)
          /\ wrote' = wrote + 1 /\ verdict' = "ok" /\ UNCHANGED <<n, plan, conf, confPrev>>
     [] e.ev = "wx" ->
          /\ wrote' = wrote + 1 /\ verdict' = "ok" /\ UNCHANGED <<rxq, n, plan, conf, confPrev>>
